@@ -24,6 +24,22 @@ Oracle (from the property statement and the docstrings of
                                    (over-restriction is a failure, too:
                                    "unsealing restores full mutability",
                                    "scoped overrides take precedence").
+
+Coverage axes (drivers 5 and 6 add the last four):
+* node kind: pg.Dict / pg.List / pg.Object (with and without value spec),
+  the sym_init_args dict of objects;
+* symbolic class kind: functor, subclassed functor, class wrapper,
+  contextual object, object with dynamic (StrKey) fields, object with change
+  hooks, compound -- every attribute accessor (set / del / MISSING_VALUE /
+  dynamic field / call-time override) and every rebind form on each;
+* in-place module-level helpers (pg.patch, pg.patch_on_*, pg.symbolic.deref);
+  for these "touches the sealed part" is decided by diffing the reference run;
+* operations inside the other scoped flags (notify_on_change,
+  enable_type_check, allow_partial, track_origin), which must neither lift
+  nor add protection;
+* every sealing API (seal, sym_seal) at every node of every tree.
+The source of an accessor restriction (per-object flag vs. scope) is part of
+the case id (`|accessor-off[flag]` / `|accessor-off[scope]`).
 """
 import threading
 import traceback
@@ -219,8 +235,7 @@ def hits_sealed(prot, addr_path, target, name):
   sealed at `prot`?  Rebinder functions visit the whole subtree."""
   if prot is None:
     return False
-  if name.endswith('rebind/fn') or name.split('|')[0] in SUBTREE_OPS or any(
-      name.endswith(':' + o) for o in SUBTREE_OPS):
+  if name.endswith('rebind/fn'):
     return is_within(prot, addr_path) or is_within(addr_path, prot)
   return is_within(target, prot)
 
@@ -231,6 +246,10 @@ def snapshot(root):
   def walk(v):
     flat.append((tuple(v.sym_path.keys), id(v), v.is_sealed,
                  v.accessor_writable))
+    if isinstance(v, pg.Functor):
+      # Bound-argument bookkeeping is part of the value's state.
+      flat.append((sorted(v.specified_args), sorted(v.non_default_args),
+                   sorted(v.default_args)))
     for _, c in v.sym_items():
       if isinstance(c, pg.Symbolic):
         walk(c)
@@ -363,32 +382,32 @@ OBJ_OPS = [
      'n.rebind(x=99, notify_parents=False)'),
     # `del obj.attr` exists for functors (discard a bound argument); for the
     # other kinds the reference decides whether it is a mutation at all.
-    ('object.delattr/symbolic-value', 'acc', 'del n.d'),
-    ('object.delattr/builtin', 'acc', "delattr(n, 'l')"),
+    ('object.delattr', 'acc', 'del n.d'),
+    ('object.delattr', 'acc', "delattr(n, 'l')"),
     ('object.delattr/dynamic-field', 'acc', 'del n.zz'),
     ('object.setattr/missing-value', 'acc', 'n.x = pg.MISSING_VALUE'),
     ('object.setattr/dynamic-field', 'acc', 'n.zz = 99'),
-    ('object.setitem', 'acc', "n['x'] = 99"),
-    ('object.delitem', 'acc', "del n['x']"),
     ('object.call/override-args', 'meth', 'n(x=5, override_args=True)'),
     ('object.rebind/raise_on_no_change=False', 'rebind',
      "n.rebind({'x': 99}, raise_on_no_change=False)"),
 ]
 # Module-level helpers that modify their argument in place (through rebind);
 # they visit the whole subtree below `n`.  Applicable at every node kind.
+_INT77 = 'lambda v: 77 if isinstance(v, int) else v'
 ANY_OPS = [
     ('pg.patch/dict-rule', 'rebind', 'pg.patch(n, {KEY: 99})'),
     ('pg.patch/fn-rule', 'rebind',
      'pg.patch(n, lambda k, v, p: 77 if isinstance(v, int) else v)'),
-    ('pg.patch_on_key', 'rebind', "pg.patch_on_key(n, '.*', 77)"),
-    ('pg.patch_on_path', 'rebind', "pg.patch_on_path(n, '.*', 77)"),
+    ('pg.patch_on_key', 'rebind',
+     f"pg.patch_on_key(n, '.*', value_fn={_INT77})"),
+    ('pg.patch_on_path', 'rebind',
+     f"pg.patch_on_path(n, '.+', value_fn={_INT77})"),
     ('pg.patch_on_value', 'rebind', 'pg.patch_on_value(n, 1, 77)'),
     ('pg.patch_on_type', 'rebind',
      'pg.patch_on_type(n, int, value_fn=lambda v: v + 100)'),
     ('pg.patch_on_member', 'rebind',
      "pg.patch_on_member(n, pg.Object, 'x', 77)"),
 ]
-SUBTREE_OPS = {o[0] for o in ANY_OPS if o[0] != 'pg.patch/dict-rule'}
 # Other scoped flags must not lift (or add) any protection.
 OTHER_SCOPES = [
     ('notify_on_change(False)', 'pg.notify_on_change(False)'),
@@ -504,6 +523,42 @@ def effective(stack, obj_flag):
 _REF = {}
 
 
+def changed_owners(a, b, path=()):
+  """Paths (key tuples) of the containers whose own keys differ between the
+  JSON values a and b: the nodes an operation modified."""
+  if type(a) is not type(b) or not isinstance(a, (dict, list)):
+    return set() if a == b else {path[:-1]}
+  out = set()
+  if isinstance(a, dict):
+    if a.get('_type') != b.get('_type'):
+      return {path[:-1]}
+    for k in set(a) | set(b):
+      if k not in a or k not in b:
+        out.add(path)
+      else:
+        out |= changed_owners(a[k], b[k], path + (k,))
+    return out
+  if len(a) != len(b):
+    out.add(path)
+  for i, (x, y) in enumerate(zip(a, b)):
+    out |= changed_owners(x, y, path + (i,))
+  return out
+
+
+def ref_owner_paths(tree, addr, src):
+  """Path strings of the nodes that `src` modifies in the reference run."""
+  key = ('owners', tree, addr, src)
+  r = _REF.get(key)
+  if r is None:
+    ref = reference(tree, addr, src)
+    r = ()
+    if ref[0] == 'ok' and ref[2]:
+      r = tuple(sorted(str(pg.KeyPath(list(t))) for t in changed_owners(
+          pg.to_json(build(tree)), ref[1])))
+    _REF[key] = r
+  return r
+
+
 def reference(tree, addr, src):
   """Outcome of `src` at `addr` of a fresh tree, fully permissive."""
   key = (tree, addr, src)
@@ -526,23 +581,27 @@ def reference(tree, addr, src):
 def witness(tree, setup_lines, sealed_stack, acc_stack, addr, src, expect):
   w = [pre_of(tree), f'root = {TREES[tree][0]}']
   w += setup_lines
-  w += [f'n = {node_expr(addr)}', 'before = pg.to_json(root)', 'err = None',
-        'try:']
+  state = 'pg.to_json(root)'
+  if tree in ('k-functor', 'k-subfunctor'):
+    state = ('(pg.to_json(root), sorted(root.h.specified_args), '
+             'sorted(root.h.non_default_args), sorted(root.h.default_args))')
+  w += [f'n = {node_expr(addr)}', f'S = lambda: {state}', 'before = S()',
+        'err = None', 'try:']
   sc, ind = scope_src(sealed_stack, acc_stack, '  ')
   w += sc + [f'{ind}{src}', 'except Exception as e:', '  err = e']
   if expect == 'refuse':
     w += ['assert isinstance(err, pg.WritePermissionError), '
           "f'no WritePermissionError: {err!r}'",
-          "assert pg.to_json(root) == before, 'tree changed'"]
+          "assert S() == before, 'tree changed'"]
   elif expect == 'unchanged':
-    w += ["assert pg.to_json(root) == before, 'tree changed'"]
+    w += ["assert S() == before, 'tree changed'"]
   elif expect[0] == 'either':
     kind, val = expect[1]
     like_ref = (f'(err is None and pg.to_json(root) == {val!r})'
                 if kind == 'ok' else
                 f'type(err).__name__ == {val.__name__!r}')
     w += ['refused = isinstance(err, pg.WritePermissionError) and '
-          'pg.to_json(root) == before',
+          'S() == before',
           f'assert refused or {like_ref}, (repr(err), pg.to_json(root))']
   else:
     kind, val = expect
@@ -569,6 +628,11 @@ def attempt(rec, tree, root, setup_lines, sealed_stack, acc_stack, addr, kind,
              witness(tree, setup_lines, sealed_stack, acc_stack, addr, src,
                      'unchanged'))
     return False
+
+
+def _acc_source(acc_stack):
+  live = [v for v in acc_stack if not isinstance(v, tuple)]
+  return 'flag' if (not live or live[-1] is None) else 'scope'
 
 
 def _attempt(rec, tree, root, setup_lines, sealed_stack, acc_stack, addr, kind,
@@ -601,22 +665,21 @@ def _attempt(rec, tree, root, setup_lines, sealed_stack, acc_stack, addr, kind,
     else:
       ok, expect = unchanged, 'unchanged'
   elif not writable_eff and kind == 'acc':
-    mode = 'accessor-off'
+    # Protection source is part of the input class: innermost effective scope
+    # value vs. the per-object flag.
+    mode = 'accessor-off[%s]' % _acc_source(acc_stack)
     if would_change:
       ok, expect = refused, 'refuse'
     else:
       ok, expect = unchanged, 'unchanged'
   elif not writable_eff and kind in ('meth', 'inpl'):
-    mode = 'accessor-off-method'
+    mode = 'accessor-off-method[%s]' % _acc_source(acc_stack)
     ok = refused or same_as_ref
     expect = ('either', (ref[0], ref[1]))
   else:
     mode = 'writable'
     ok = same_as_ref
     expect = (ref[0], ref[1])
-    if ok and err is None and ref[0] == 'ok' and not unchanged:
-      # Flags of surviving nodes must not have been altered by the mutation.
-      pass
   case_id = f'{name}|{mode}'
   if not unchanged and isinstance(err, WPE):
     # Refused but modified: always wrong.
@@ -638,8 +701,11 @@ def _attempt(rec, tree, root, setup_lines, sealed_stack, acc_stack, addr, kind,
            'scope flags leaked after leaving the with-blocks',
            witness(tree, setup_lines, sealed_stack, acc_stack, addr, src,
                    'unchanged') if not scopes_clean else '')
-  # The tree may be reused only if it was provably left alone.
-  return unchanged and (err is None or isinstance(err, WPE)) and ok
+  # The tree may be reused only if it was provably left alone: an operation
+  # on an object that returned normally may have changed non-symbolic state
+  # (e.g. a plain Python attribute of a wrapped class instance).
+  return unchanged and ok and (err is not None or
+                               not isinstance(n, pg.Object))
 
 
 def all_ops_at(root):
@@ -663,7 +729,7 @@ def drv_sealed_flag(tier, seed):
       'C08', 'seal(True) on each node: every mutator at/below it is refused, '
       'tree unchanged; nodes outside stay mutable; seal(False) restores',
       scope='4 trees (dict/list/object/value-spec dict, depth<=4) x every '
-      'symbolic node sealed x every list/dict/object mutator (36+26+11 ops, '
+      'symbolic node sealed x every list/dict/object mutator (38+30+18 ops, '
       'incl. sym_init_args dict of objects, rebind through each ancestor) '
       'at every node; then seal(False) and the same ops again')
   for tree in BASE_TREES:
@@ -1163,8 +1229,358 @@ def drv_seal_histories(tier, seed):
   return rec.result()
 
 
+# --------------------------------------------------------------------------
+# Driver 5: every symbolic class kind x every accessor / mutator x every
+# protection mode.
+# --------------------------------------------------------------------------
+
+ATTR_DICT_OPS = ('dict.setitem/existing', 'dict.setitem/missing-value',
+                 'dict.setattr/existing', 'dict.delitem', 'dict.delattr',
+                 'dict.pop', 'dict.clear', 'dict.update/dict', 'dict.ior',
+                 'dict.rebind/dict', 'dict.rebind/delete')
+CHILD_OPS = ('dict.setitem/new', 'dict.delitem', 'dict.rebind/kwargs',
+             'list.setitem/index', 'list.append', 'list.rebind/index')
+
+
+def any_ops_for(node):
+  """ANY_OPS instantiated for `node` (KEY -> a replaceable key of it)."""
+  key = child_key_src(node)
+  out = []
+  for name, kind, src in ANY_OPS:
+    if 'KEY' in src:
+      if key is None:
+        continue
+      src = src.replace('KEY', repr(key))
+    out.append((name, kind, src))
+  return out
+
+
+def wrapped_ops_for(k):
+  """One accessor/deleter/method/rebind op per node kind inside each of the
+  other scoped flags (which must neither lift nor add protection)."""
+  out = []
+  seen = set()
+  for name, kind, src in OPS[k]:
+    if name in WRAPPED_BASE[k] and name not in seen:
+      seen.add(name)
+      for label, scope in OTHER_SCOPES:
+        out.append((f'{name}/inside-{label}', kind, f'with {scope}: {src}'))
+  return out
+
+
+def kind_ops(tree):
+  """[(name, kind, src, addr, target)] for a kind tree pg.Dict(h=KIND, t=5)."""
+  label = KINDS[tree][0]
+  proto = build(tree)
+  out = []
+  for addr, k in addresses(proto):
+    p, via = addr
+    node = resolve(proto, addr)
+    if p == 'h' and not via:
+      ops = [(label + n_[len('object'):], k_, s_)
+             for n_, k_, s_ in OPS['object'] + wrapped_ops_for('object')]
+      ops += [(f'{n_}/at-{label}', k_, s_) for n_, k_, s_ in any_ops_for(node)]
+    elif p == 'h':
+      ops = [(f'{label}.sym_init_args:{n_}', k_, s_)
+             for n_, k_, s_ in DICT_OPS if n_ in ATTR_DICT_OPS]
+    elif not p:
+      ops = [(f'{n_}/above-{label}', k_, s_)
+             for n_, k_, s_ in any_ops_for(node) if n_ != 'pg.patch/dict-rule']
+    else:
+      ops = [(f'{n_}/below-{label}', k_, s_)
+             for n_, k_, s_ in OPS[k] if n_ in CHILD_OPS]
+    out += [(n_, k_, s_, addr, p) for n_, k_, s_ in ops]
+  for name, addr, src, target in ancestor_rebind_ops(proto):
+    a, b = name.split('/')[1].split('->')
+    a = label if a == 'object' else a
+    b = label if b == 'object' else b
+    out.append((f"{name.split('/')[0]}/{a}->{b}", 'rebind', src, addr, target))
+  return out
+
+
+def is_any_op(name):
+  return name.startswith('pg.patch')
+
+
+def sealed_hit(tree, prot, addr, target, name, src):
+  """Does the op touch the region deep-sealed at `prot`?"""
+  if prot is None:
+    return False
+  if is_any_op(name):
+    # Subtree-wide helper: it touches the sealed region iff the reference run
+    # modifies a node at/below the sealed one.
+    return any(is_within(o, prot) for o in ref_owner_paths(tree, addr, src))
+  return hits_sealed(prot, addr[0], target, name)
+
+
+def is_extra_op(name):
+  return is_any_op(name) or '/inside-' in name
+
+
+def run_configs(rec, tree, all_ops, configs, flag_path, core_configs=None):
+  """configs: [(sealed_at, sealed_stack, acc_flag, acc_stack)]; the per-object
+  accessor flag is set at `flag_path`, the seal at `sealed_at`.  With
+  `core_configs`, the helper / other-scope operations run only under those."""
+  for config in configs:
+    sealed_at, sstack, flag, astack = config
+    ops = all_ops
+    if core_configs is not None and config not in core_configs:
+      ops = [o for o in all_ops if not is_extra_op(o[0])]
+    setup = []
+    if flag is not None:
+      setup.append(set_acc_src((flag_path, ''), flag))
+    if sealed_at is not None:
+      setup.append(f"{node_expr((sealed_at, ''))}.seal(True)")
+
+    def prep(t, f_=flag, s_=sealed_at):
+      if f_ is not None:
+        resolve(t, (flag_path, '')).set_accessor_writable(f_)
+      if s_ is not None:
+        resolve(t, (s_, '')).seal(True)
+    pool = Pool(tree, prep)
+    cfg = (f'sealed@{sealed_at!r} as_sealed{sstack} acc_flag={flag}'
+           f'@{flag_path!r} allow_writable{astack}')
+    failed_plain = set()
+    for name, kind, src, addr, target in ops:
+      root = pool.get()
+      node = resolve(root, addr)
+      plain = name.split('/inside-')[0]
+      if plain != name and (addr, plain) in failed_plain:
+        # One defect, one id: the same operation already fails in this
+        # configuration outside the extra scope.
+        name = plain
+      nfail = sum(f['count'] for f in rec.fail.values())
+      flag_s = sealed_hit(tree, sealed_at, addr, target, name, src)
+      s = effective(sstack, flag_s)
+      w = effective(astack, node.accessor_writable)
+      pool.done(attempt(
+          rec, tree, root, setup, sstack, astack, addr, kind, name, src, s, w,
+          cfg, start_sealed=effective(
+              sstack, sealed_at is not None and is_within(addr[0],
+                                                          sealed_at))))
+      if sum(f['count'] for f in rec.fail.values()) != nfail:
+        failed_plain.add((addr, name))
+
+
+KIND_CONFIGS = (
+    # sealed (flag / scope / both)
+    [(at, st, None, ()) for at, st in [
+        ('', ()), ('h', ()), ('h.d', ()), (None, (True,)), ('', (False,)),
+        ('h', (True, None)), (None, (False, True)), ('h', (False, None)),
+        ('h', (None,))]] +
+    # accessor writability (flag / scope / both)
+    [(None, (), f, st) for f, st in [
+        (None, ()), (None, (False,)), (None, (True,)), (False, ()),
+        (False, (True,)), (False, (None,)), (False, (False, True)),
+        (False, (True, None)), (True, ()), (True, (False,)),
+        (True, (False, None)), (True, (True, False))]] +
+    # combinations
+    [('', (), None, (True,)), (None, (True,), None, (True,)),
+     ('', (False,), False, ()), ('', (False,), None, (False,)),
+     ('h', (), True, (False,)), ('h', (None,), False, (True,))])
+
+
+KIND_CORE_CONFIGS = [
+    ('', (), None, ()), ('h', (), None, ()), (None, (True,), None, ()),
+    ('', (False,), None, ()), (None, (), None, ()),
+    (None, (), None, (False,)), (None, (), False, ()),
+    (None, (), False, (True,)), (None, (), True, (False,)),
+    ('', (), None, (True,))]
+assert all(c in KIND_CONFIGS for c in KIND_CORE_CONFIGS)
+
+
+def drv_symbolic_kinds(tier, seed):
+  del seed
+  rec = Recorder(
+      'C08', 'every symbolic class kind (functor, subclassed functor, class '
+      'wrapper, contextual object, object with dynamic fields, object with '
+      'change hooks, compound) x every attribute accessor/deleter, rebind '
+      'form, attribute-dict mutator, in-place pg.patch* helper x every '
+      'protection mode',
+      scope='7 kinds, each as pg.Dict(h=KIND(x, d=Dict, l=List), t); '
+      'ops: 20 object ops + 16 ops inside other scoped flags + 7 pg.patch* '
+      'helpers at the object, 11 mutators of its sym_init_args dict, 6 ops on '
+      'its children, rebind through the ancestor; configs: seal at root / '
+      'object / child, as_sealed stacks, accessor flag {unset,False,True} x '
+      'allow_writable_accessors stacks, 6 combinations (27 configs quick, '
+      '+ all scope stacks of depth 2 thorough)')
+  configs = list(KIND_CONFIGS)
+  if tier != 'quick':
+    for st in stacks(2):
+      configs += [('h', st, None, ()), (None, (), False, st),
+                  (None, (), True, st)]
+  for tree in KIND_TREES:
+    if tier == 'quick':
+      # Kinds with their own accessor / storage code get every config; the
+      # helper and other-scope operations, and the kinds that only differ
+      # from a plain pg.Object in hooks, get the discriminating core.
+      full = tree in ('k-functor', 'k-subfunctor', 'k-wrapper', 'k-kwargs')
+      run_configs(rec, tree, kind_ops(tree),
+                  configs if full else KIND_CORE_CONFIGS, 'h',
+                  KIND_CORE_CONFIGS)
+    else:
+      run_configs(rec, tree, kind_ops(tree), configs, 'h')
+  return rec.result()
+
+
+# --------------------------------------------------------------------------
+# Driver 6: in-place helpers and other scoped flags on the base trees; every
+# sealing API; thread-locality of the accessor scope.
+# --------------------------------------------------------------------------
+
+def drv_helpers_and_seal_apis(tier, seed):
+  del seed
+  rec = Recorder(
+      'C08', 'in-place pg.patch* helpers and operations inside other scoped '
+      'flags (notify_on_change, enable_type_check, allow_partial, '
+      'track_origin) honor sealed / accessor protection; sym_seal / seal / '
+      'pg.symbolic.deref; allow_writable_accessors is thread-local',
+      scope='4 base trees x every node: 7 pg.patch* helpers and 4 ops x 4 '
+      'other scopes under {seal at each node, as_sealed(True), sealed root + '
+      'as_sealed(False), accessor flag False at the node, '
+      'allow_writable_accessors(False), flag False + scope True}; '
+      'sym_seal(True)/sym_seal(False) at every node of 4 base + 7 kind '
+      'trees; deref of a sealed tree holding pg.Ref')
+  for tree in BASE_TREES:
+    proto = build(tree)
+    paths = [p for p, _ in sym_nodes(proto)]
+    for addr, k in addresses(proto):
+      node = resolve(proto, addr)
+      ops = [(n_, k_, s_, addr, addr[0]) for n_, k_, s_ in
+             any_ops_for(node) + wrapped_ops_for(k)]
+      configs = [(p, (), None, ()) for p in paths
+                 if tier != 'quick' or p in (paths[0], paths[1], paths[-1],
+                                             addr[0])]
+      configs += [(None, (True,), None, ()), ('', (False,), None, ()),
+                  (None, (), None, (False,)), (None, (), None, ())]
+      if not addr[1]:
+        configs += [(None, (), False, ()), (None, (), False, (True,))]
+      run_configs(rec, tree, ops, configs, addr[0])
+
+  # Every sealing API: after X.<api>(v) every symbolic node at/below X (and
+  # the attribute dict of every object) is (un)sealed and behaves so.
+  for tree in BASE_TREES + KIND_TREES:
+    proto = build(tree)
+    for prot, pnode in sym_nodes(proto):
+      for api, want, calls in [
+          ('sym_seal', True, ['sym_seal(True)']),
+          ('sym_seal', False, ['seal(True)', 'sym_seal(False)']),
+          ('seal', True, ['seal(True)']),
+          ('seal', False, ['seal(True)', 'seal(False)']),
+          ('seal', True, ['seal()'])]:
+        if api == 'seal' and tree in BASE_TREES and tier == 'quick':
+          continue  # drivers 1 and 4 do this on the base trees
+        e = node_expr((prot, ''))
+        lines = [f'{e}.{c}' for c in calls]
+        head = [pre_of(tree), f'root = {TREES[tree][0]}'] + lines
+        root = build(tree)
+        for ln in lines:
+          run_src(ln, root=root)
+        for q, m in sym_nodes(resolve(root, (prot, ''))):
+          if q == prot:
+            cls = 'own-flag'
+          else:
+            cls = 'symbolic-descendants'
+          checks = [(cls, m, (q, ''))]
+          if isinstance(m, pg.Object):
+            checks.append(('object-attr-dict', m.sym_init_args, (q, 'attrs')))
+          for c, mm, a in checks:
+            rec.case(f'{api}/{c}', (tree, prot, tuple(calls), a, 'flag'),
+                     mm.is_sealed == want,
+                     f'after {lines}: is_sealed at {a} is {mm.is_sealed}',
+                     '\n'.join(head + [f'm = {node_expr(a)}',
+                                       f'assert m.is_sealed == {want}']))
+            # behavioural probe on a fresh replay
+            root2 = build(tree)
+            for ln in lines:
+              run_src(ln, root=root2)
+            m2 = resolve(root2, a)
+            probe = PROBE['object' if a[1] else kind_of(m2)]
+            pc = c
+            if isinstance(m2, pg.Object):
+              # an object stores its fields in its attribute dict
+              pc = 'object-attr-dict'
+            before = pg.to_json(root2)
+            err = None
+            try:
+              run_src(probe, n=m2)
+            except Exception as ex:  # pylint: disable=broad-except
+              err = ex
+            if want:
+              ok = isinstance(err, WPE) and pg.to_json(root2) == before
+            else:
+              ok = err is None and pg.to_json(root2) != before
+            rec.case(f'{api}/{pc}', (tree, prot, tuple(calls), a, 'probe'), ok,
+                     f'after {lines}: {probe} at {a}: err={err!r}',
+                     '\n'.join(head + [
+                         f'n = {node_expr(a)}', 'err = None', 'try:',
+                         f'  {probe}', 'except Exception as e:', '  err = e',
+                         ('assert isinstance(err, pg.WritePermissionError), '
+                          'repr(err)' if want else
+                          'assert err is None, repr(err)')]))
+
+  # pg.symbolic.deref(recursive=True) replaces pg.Ref nodes in place.
+  pre = PRE['cls'].strip()
+  mk = 'pg.Dict(r=pg.Ref(C08N(x=2)), k=pg.Dict(q=pg.Ref(C08N(x=3)), u=1))'
+  for cfg, setup, scope in [
+      ('seal(True)', 'root.seal(True)', 'pg.as_sealed(None)'),
+      ('seal(True)@k', 'root.k.seal(True)', 'pg.as_sealed(None)'),
+      ('as_sealed(True)', 'pass', 'pg.as_sealed(True)'),
+      ('accessor-off', 'root.set_accessor_writable(False)',
+       'pg.allow_writable_accessors(False)'),
+      ('seal+as_sealed(False)', 'root.seal(True)', 'pg.as_sealed(False)')]:
+    body = [pre, f'root = {mk}', setup,
+            'fmt = lambda: root.format(compact=True)', 'before = fmt()',
+            'err = None', 'try:', f'  with {scope}:',
+            '    pg.symbolic.deref(root, recursive=True)',
+            'except Exception as e:', '  err = e']
+    if cfg.startswith(('seal(True)', 'as_sealed')):
+      body += ['assert isinstance(err, pg.WritePermissionError), repr(err)',
+               "assert fmt() == before, 'tree changed'"]
+      cid = 'pg.deref/recursive|sealed'
+    else:
+      body += ['assert err is None, repr(err)',
+               "assert 'Ref' not in fmt(), fmt()"]
+      cid = 'pg.deref/recursive|writable'
+    if cfg == 'seal(True)@k':
+      # refs outside the sealed part may have been replaced first: this is
+      # the known partial-application class, only the refusal is checked here.
+      body = body[:-1]
+    w = '\n'.join(body)
+    try:
+      exec(w, {})  # pylint: disable=exec-used
+      ok, msg = True, ''
+    except Exception as ex:  # pylint: disable=broad-except
+      ok, msg = False, f'{type(ex).__name__}: {ex}'
+    rec.case(cid, cfg, ok, f'{cfg}: {msg}', w)
+
+  # The accessor scope is thread-local like the sealed scope.
+  d = pg.Dict(a=1)
+  res = {}
+
+  def other():
+    try:
+      d.b = 2
+      res['ok'] = True
+    except Exception as ex:  # pylint: disable=broad-except
+      res['ok'] = ex
+  with pg.allow_writable_accessors(False):
+    t = threading.Thread(target=other)
+    t.start()
+    t.join()
+  rec.case('allow_writable_accessors/thread-local', 'thread',
+           res.get('ok') is True,
+           f'write from another thread inside the scope: {res}',
+           'import pyglove as pg, threading\nd = pg.Dict(a=1)\n'
+           'with pg.allow_writable_accessors(False):\n'
+           '  t = threading.Thread(target=lambda: d.__setitem__("b", 2)); '
+           't.start(); t.join()\nassert d == dict(a=1, b=2), d')
+  return rec.result()
+
+
 DRIVERS = [drv_sealed_flag, drv_sealed_scopes, drv_accessor,
-           drv_seal_histories]
+           drv_seal_histories, drv_symbolic_kinds,
+           drv_helpers_and_seal_apis]
 
 
 def replay(rec):
